@@ -667,6 +667,37 @@ func (c *cluster) safeguard(seed int64, pool *x509.CertPool) {
 		w["seed"] = seed
 		rep.violation("C19", key, what, w)
 	}
+	// what a peer reports as its time is half of every measurement: on one machine the
+	// reported time must lie between the moment the request was sent and the moment the
+	// answer arrived (the peer's clock IS the prober's clock)
+	for _, n := range c.nodes {
+		for k := 0; k < 25; k++ {
+			time.Sleep(time.Duration(rng.Intn(90)) * time.Millisecond)
+			req, _ := http.NewRequest("GET", "https://"+n.addr()+"/", nil)
+			req.SetBasicAuth("robustirc", password)
+			req.Header.Set("Accept", "application/json")
+			start := time.Now()
+			resp, err := c.hc.Do(req)
+			if err != nil {
+				continue
+			}
+			var st struct{ CurrentTime time.Time }
+			err = json.NewDecoder(resp.Body).Decode(&st)
+			resp.Body.Close()
+			end := time.Now()
+			if err != nil || st.CurrentTime.IsZero() {
+				rep.inconclusive(fmt.Sprintf("status of node %d does not carry a time: %v", n.idx, err))
+				break
+			}
+			rep.Obs("safeguard.reported-times-checked", 1)
+			if st.CurrentTime.Before(start.Add(-time.Millisecond)) || st.CurrentTime.After(end.Add(time.Millisecond)) {
+				viol("binary:status-reports-wrong-time", fmt.Sprintf("node %d reports its time as %s; the request was sent at %s and answered at %s on the same clock: a node measuring against it is off by up to %v without noticing",
+					n.idx, st.CurrentTime.Format("15:04:05.000000"), start.Format("15:04:05.000000"), end.Format("15:04:05.000000"), start.Sub(st.CurrentTime).Round(time.Millisecond)), nil)
+				break
+			}
+		}
+	}
+	rep.Case("safeguard|reported-time-within-request-window", 1)
 	// the real network has done its job: node 2 holds raft state that names three servers
 	for _, n := range c.nodes {
 		n.signal(syscall.SIGKILL)
